@@ -276,7 +276,11 @@ def drive_pytree(params: Params) -> Params:
   new_leaves = []
   for leaf in leaves:
     # this uses the unbiased scale from section 4.2 in DRIVE's paper (Scale = norm2(R(x))**2 / norm1(R(x)) )
-    new_leaves.append(jnp.sum(jnp.power(leaf, 2)) * jnp.sign(leaf) / jnp.sum(jnp.abs(leaf)))
+    # An all-zero leaf gives 0 * 0 / 0: quantize it to zero instead of NaN.
+    new_leaves.append(
+        jnp.nan_to_num(
+            jnp.sum(jnp.power(leaf, 2)) * jnp.sign(leaf) /
+            jnp.sum(jnp.abs(leaf))))
   return jax.tree_util.tree_unflatten(tree_def, new_leaves)
 
 
